@@ -165,6 +165,45 @@ class Index:
 
         text, _, nth = contract.region["anchor"].partition("#")
         nth = int(nth) if nth else 0
+        if text.startswith("writes:"):
+            # semantic anchor, robust against the syntactic shape of the code: the statement that assigns the attribute
+            # `<attr>` (n-th such statement), widened to the outermost chain of enclosing `if` statements
+            attr = text[len("writes:"):].strip()
+            hits = []
+
+            def walk(body, chain):
+                for st in body:
+                    is_w = False
+                    if isinstance(st, (ast.Assign, ast.AugAssign, ast.AnnAssign)):
+                        tgts = st.targets if isinstance(st, ast.Assign) else [st.target]
+                        for t in tgts:
+                            for sub in ast.walk(t):
+                                if isinstance(sub, ast.Attribute) and sub.attr == attr and isinstance(sub.ctx, ast.Store):
+                                    is_w = True
+                    if is_w:
+                        hits.append((chain[0] if chain else (body, body.index(st))))
+                    if isinstance(st, ast.If):
+                        nxt = chain if chain else [(body, body.index(st))]
+                        walk(st.body, nxt)
+                        walk(st.orelse, nxt)
+                    else:
+                        for fld in ("body", "orelse", "finalbody"):
+                            sub = getattr(st, fld, None)
+                            if isinstance(sub, list):
+                                walk(sub, [])
+                        for h in getattr(st, "handlers", []) or []:
+                            walk(h.body, [])
+
+            walk(fn.body, [])
+            uniq = []
+            for b, i in hits:
+                if not any(b is b2 and i == i2 for b2, i2 in uniq):
+                    uniq.append((b, i))
+            if nth >= len(uniq):
+                raise KeyError("no statement of %s writes attribute %s" % (fname, attr))
+            body, i = uniq[nth]
+            stmts = body[i : i + int(contract.region.get("span", 1))]
+            return self._region_fn(m, cls, f, label, contract, stmts)
         try:
             norm = ast.unparse(ast.parse(text).body[0])
         except SyntaxError:
@@ -190,6 +229,9 @@ class Index:
             raise KeyError("region anchor %r not found in %s" % (contract.region["anchor"], fname))
         body, i = found[nth]
         stmts = body[i : i + int(contract.region.get("span", 1))]
+        return self._region_fn(m, cls, f, label, contract, stmts)
+
+    def _region_fn(self, m, cls, f, label, contract, stmts):
         params = ([ast.arg(arg="self")] if cls else []) + [ast.arg(arg=p) for p in contract.params if p != "self"]
         node = ast.FunctionDef(
             name="%s@%s" % (f, label),
